@@ -966,6 +966,26 @@ def neutral_short_structure(ctx, X, Y, variant):
             "pdb": B.to_pdb(atoms), "nterm": sorted(nterm), "cterm": sorted(cterm), "by_resseq": True}
 
 
+def neutral_layout_structures(ctx):
+    B = _B()
+    rng = ctx.rng
+    others = [r for r in STANDARD_AA if r != "PRO"]
+    out = []
+    seqa = [rng.choice(others), "GLY", rng.choice(others)]
+    seqb = [rng.choice(others), rng.choice(TITRATABLE), rng.choice(others)]
+    pa = B.build_peptide(seqa, chain="A", start=1)
+    pb = B.build_peptide(seqb, chain="B", start=11, origin=(0.0, 0.0, 22.0))
+    blank = "".join((ln[:21] + " " + ln[22:]) if ln.startswith(("ATOM", "HETATM", "TER")) and len(ln) > 22 else ln for ln in B.to_pdb(pa + pb).splitlines(keepends=True))
+    out.append({"id": f"nt-layout:blank-chain-ids:{'-'.join(seqa)}/{'-'.join(seqb)}", "pdb": blank,
+                "nterm": [("", "1"), ("", "11")], "cterm": [("", "3"), ("", "13")], "by_resseq": True})
+    try:
+        ring = B.ring_peptide(["GLY", rng.choice(["ALA", "SER"]), "GLY", rng.choice(["LYS", "ASP"]), "GLY", "ALA"], chain="R")
+        out.append({"id": "nt-layout:cyclic-hexapeptide", "pdb": B.to_pdb(ring), "nterm": [], "cterm": [], "by_resseq": True})
+    except Exception as e:  # noqa: BLE001
+        ctx.count(f"neutral:layout-not-built:cyclic:{type(e).__name__}")
+    return out
+
+
 def group_residues(atoms, by_resseq=False):
     g = {}
     for a in atoms:
@@ -1128,10 +1148,253 @@ def search_neutral(ctx, high):
     for i, X in enumerate(STANDARD_AA):
         variant = ("plain", "hidden", "water")[(i + ctx.seed) % 3]
         neutral_case(ctx, neutral_short_structure(ctx, X, ctx.rng.choice(others), variant), "short:" + X)
+    # layouts: blank chain IDs (two chains told apart by TER only) and a cyclic peptide (no terminus at all:
+    # the flags must change nothing)
+    for st in neutral_layout_structures(ctx):
+        neutral_case(ctx, st, "layout")
     # other force fields must refuse the flags (check_options); counted only
     st = neutral_structure(ctx, "ALA", False)
     res = run_real(ctx, st["pdb"], ["--ff=AMBER", "--neutraln"])
     ctx.count("neutral:non-PARSE:" + ("refused" if res["pqr_text"] is None else "accepted"))
+
+
+# ---------------------------------------------------------------------------
+# class audit: entry points, compute x formatting product, layouts, process history
+
+ENTRIES = ("driver", "run_pdb2pqr", "cli")
+
+
+def run_entry(ctx, text, args, input_name="input.pdb", entry="driver"):
+    """One run through main_driver(Namespace) (builder), main.run_pdb2pqr(list) or a FRESH
+    process running the console entry main().  Returns {'pqr_text', 'exc'} (exc = text or None)."""
+    import subprocess
+
+    if entry == "driver":
+        r = run_real(ctx, text, args, input_name)
+        return {"pqr_text": r["pqr_text"], "exc": exc_text(r)}
+    wd = ctx.scratch_dir() / "w"
+    wd.mkdir(parents=True, exist_ok=True)
+    inp, outp = wd / input_name, wd / "output.pqr"
+    for stale in (outp, outp.with_suffix(".log"), wd / "out.pdb", wd / "out.in"):
+        if stale.exists():
+            stale.unlink()
+    inp.write_text(text)
+    exc = None
+    if entry == "run_pdb2pqr":
+        B = _B()
+        from pdb2pqr import main as pmain
+
+        with B.capture_pdb2pqr_log():
+            try:
+                pmain.run_pdb2pqr([*map(str, args), str(inp), str(outp)])
+            except BaseException as e:  # noqa: BLE001
+                if isinstance(e, KeyboardInterrupt):
+                    raise
+                exc = f"{type(e).__name__}: {e}"
+    else:
+        code = "import sys; from pdb2pqr.main import main; sys.argv = ['pdb2pqr'] + sys.argv[1:]; main()"
+        env = {**os.environ, "PYTHONPATH": f"{core.REPO}:{core.VERIF}", "PYTHONHASHSEED": "0"}
+        pr = subprocess.run(["timeout", "300", sys.executable, "-c", code, *map(str, args), str(inp), str(outp)], capture_output=True, text=True, env=env, cwd=str(wd))
+        if pr.returncode != 0:
+            exc = f"exit {pr.returncode}: {pr.stderr.strip().splitlines()[-1][:200] if pr.stderr.strip() else ''}"
+    return {"pqr_text": outp.read_text() if outp.exists() else None, "exc": exc}
+
+
+def layout_structures(ctx):
+    """Input layouts of the audit list; chains = chain IDs that may show up with --keep-chain."""
+    import numpy as np
+
+    B = _B()
+    rng = ctx.rng
+    out = []
+    others = [r for r in STANDARD_AA if r != "PRO"]
+    X, Y = rng.choice(others), rng.choice(others)
+    s = neutral_short_structure(ctx, X, Y, "hidden")
+    out.append({"id": "layout:" + s["id"], "pdb": s["pdb"], "chains": set("ABCDEFGHIJ"), "kind": "short+hidden"})
+    # blank chain IDs, two chains separated by TER, waters with blank chain
+    pa = B.build_peptide([rng.choice(TITRATABLE), "GLY", rng.choice(others)], chain="A")
+    pb = B.build_peptide(["SER", rng.choice(TITRATABLE), "ALA"], chain="B", start=11, origin=(0.0, 0.0, 22.0))
+    w = B.waters(2, around=pa + pb, rng=np.random.default_rng(5), chain="W", start=101)
+    blank = "".join((ln[:21] + " " + ln[22:]) if ln.startswith(("ATOM", "HETATM", "TER")) and len(ln) > 22 else ln for ln in B.to_pdb(pa + pb + w).splitlines(keepends=True))
+    out.append({"id": "layout:blank-chain-ids", "pdb": blank, "chains": set("ABCDEFGH") | {""}, "kind": "blank-chains"})
+    # waters listed under the polymer's chain ID (before and after it) + nucleic strand with same-chain water
+    pep = B.build_peptide([rng.choice(others), rng.choice(TITRATABLE), "GLY", rng.choice(others)], chain="A", start=5)
+    ws = B.waters(3, around=pep, rng=np.random.default_rng(6), chain="A", start=201)
+    dna = B.build_strand([rng.choice("ACGT") for _ in range(3)], chain="N", origin=(0.0, 30.0, 0.0))
+    wn = B.waters(1, around=pep + dna, rng=np.random.default_rng(7), chain="N", start=301)
+    out.append({"id": "layout:waters-under-chain-id+dna", "pdb": B.to_pdb(ws[:1] + pep + ws[1:] + dna + wn), "chains": {"A", "N"}, "kind": "same-chain-waters"})
+    # a residue without a definition at first / middle / last position
+    unk = rng.choice(["DAL", "MSE", "XYZ"])
+    pos = rng.choice([0, 2, 4])
+    seq = ["ALA", "LYS", "GLY", "ASP", "SER"]
+    pu = B.build_peptide(seq, chain="U")
+    txt = B.to_pdb(pu)
+    num = str(pos + 1)
+    txt = "".join((ln[:17] + unk + ln[20:]) if ln.startswith("ATOM") and ln[22:26].strip() == num else ln for ln in txt.splitlines(keepends=True))
+    out.append({"id": f"layout:unknown-residue-{unk}@{pos + 1}/5", "pdb": txt, "chains": set("UABCD"), "kind": "unknown-residue"})
+    # cyclic peptide
+    try:
+        ring = B.ring_peptide(["GLY", rng.choice(["ALA", "SER"]), "GLY", rng.choice(["LYS", "ASP"]), "GLY", "ALA"], chain="R")
+        out.append({"id": "layout:cyclic-hexapeptide", "pdb": B.to_pdb(ring), "chains": {"R"}, "kind": "cyclic"})
+    except Exception as e:  # noqa: BLE001 - scaffolding limit, counted
+        ctx.count(f"audit:layout-not-built:cyclic:{type(e).__name__}")
+    return out
+
+
+def ligand_structure(ctx):
+    """Peptide + the acetate of tests/data/acetate.mol2 as HETATM residue LIG (for --ligand)."""
+    B = _B()
+    mol2 = core.REPO / "tests" / "data" / "acetate.mol2"
+    if not mol2.exists():
+        mol2 = Path("/repo/tests/data/acetate.mol2")
+    if not mol2.exists():
+        return None
+    lines, on = [], False
+    for ln in mol2.read_text().splitlines():
+        if ln.startswith("@<TRIPOS>"):
+            on = ln.strip() == "@<TRIPOS>ATOM"
+            continue
+        f = ln.split()
+        if on and len(f) >= 6:
+            lines.append(_coord_line("HETATM", 0, f[1], " ", "LIG", "L", 1, " ", (float(f[2]), float(f[3]), float(f[4])), f[1][0]))
+    pep = B.build_peptide(["ALA", "LYS", "GLY", "ASP"], chain="A", origin=(25.0, 25.0, 25.0))
+    body = [ln + "\n" for ln in B.to_pdb(pep, end=False).splitlines()] + lines + ["END\n"]
+    return {"id": "layout:peptide+acetate-ligand", "pdb": "".join(renumber_serials(body)), "chains": {"A", "L"}, "kind": "ligand", "mol2": str(mol2)}
+
+
+def random_compute_args(ctx, st):
+    """A random compute setting (options that DO change the model); returns (args, ff)."""
+    rng = ctx.rng
+    wd = ctx.scratch_dir() / "w"
+    wd.mkdir(parents=True, exist_ok=True)
+    args = []
+    ff = rng.choice(NA_FFS if st["kind"] == "dna" else FFS)
+    mode = rng.random() if st["kind"] != "dna" else 0.9
+    if st["kind"] == "ligand":
+        ff = rng.choice(["AMBER", "PARSE", "CHARMM"])
+        args += [f"--ff={ff}", f"--ligand={st['mol2']}"]
+    elif mode < 0.2:
+        # user force field = a copy of a built-in one (each spelling: with --ff too, or alone)
+        dat = core.REPO / "pdb2pqr" / "dat"
+        (wd / "user.DAT").write_text((dat / f"{ff}.DAT").read_text())
+        (wd / "user.names").write_text((dat / f"{ff}.names").read_text())
+        args += [f"--userff={wd / 'user.DAT'}", f"--usernames={wd / 'user.names'}"] + ([f"--ff={ff}"] if rng.random() < 0.5 else [])
+    elif mode < 0.4:
+        ff = "PARSE"
+        args += ["--ff=PARSE"] + rng.choice([["--neutraln"], ["--neutralc"], ["--neutraln", "--neutralc"]])
+    else:
+        args += [f"--ff={ff}"]
+    if rng.random() < 0.3:
+        args.append("--noopt")
+    if rng.random() < 0.3:
+        args.append("--nodebump")
+    if rng.random() < 0.3:
+        args.append("--drop-water")
+    if rng.random() < 0.2 and ff in ("PARSE", "AMBER", "CHARMM") and st["kind"] not in ("unknown-residue",):
+        args += ["--titration-state-method=propka", f"--with-ph={rng.choice(['2.0', '4.5', '7', '7.00', '9.25', '12'])}"]
+    return args, ff
+
+
+def random_format_args(ctx):
+    rng = ctx.rng
+    opts = [o for o in FORMAT_OPTS if rng.random() < 0.45]
+    if not opts:
+        opts = [rng.choice(FORMAT_OPTS)]
+    scheme = rng.choice(FFS) if "ffout" in opts else None
+    extra = [f"--log-level={rng.choice(['DEBUG', 'INFO', 'WARNING', 'ERROR', 'CRITICAL'])}"] if rng.random() < 0.5 else []
+    return opts, scheme, extra
+
+
+def audit_product(ctx, structs, nsamples):
+    """(2)+(3): for a random compute setting on a random layout, the model written by a run with
+    random formatting options (through a random entry point) equals the model of the plain run."""
+    rng = ctx.rng
+    for k in range(nsamples):
+        st = structs[k % len(structs)]
+        cargs, ff = random_compute_args(ctx, st)
+        input_name = st.get("input_name", "input.pdb")
+        base = run_entry(ctx, st["pdb"], cargs, input_name, "driver")
+        if base["pqr_text"] is None:
+            ctx.count(f"audit:product:base-run-failed:{st['kind']}:{(base['exc'] or '')[:50]}")
+            ctx.evaluated(("audit-base", st["id"], tuple(cargs)), False)
+            continue
+        ba = parse_pqr(base["pqr_text"], False)
+        for _j in range(2):
+            opts, scheme, extra = random_format_args(ctx)
+            entry = rng.choice(ENTRIES if _j == 0 else ("driver", "run_pdb2pqr"))
+            fargs = option_args(ctx, opts, scheme) + extra
+            res = run_entry(ctx, st["pdb"], cargs + fargs, input_name, entry)
+            ctx.count(f"audit:product:{st['kind']}:entry={entry}")
+            for a in cargs:
+                ctx.count("audit:product:compute:" + a.split("=")[0])
+            ctx.evaluated(("audit", st["id"], tuple(cargs), classify_subset(opts), scheme, entry), len(ba) > 0)
+            shim = {"pqr_text": res["pqr_text"], "exc": None}
+            d = None
+            if res["pqr_text"] is None:
+                d = ("no-output", f"the option run wrote no PQR file ({res['exc']})")
+            else:
+                d = lattice_compare(st, ba, shim, opts)
+            if d:
+                field, detail = d
+                sig = lattice_sig(opts, [a for a in cargs if not a.startswith("--ff=")], field)
+                sig["entry"] = entry
+                ctx.fail(sig, f"[{entry}] {' '.join(cargs)} on {st['id']}: adding {' '.join(a.split('=')[0] for a in fargs)} changes the model: {field}: {detail}",
+                         {"kind": "lattice", "structure": st["id"], "pdb": st["pdb"], "input_name": input_name, "ff": ff, "opts": sorted(opts), "scheme": scheme, "chains": sorted(st["chains"]), "extra_args": [a for a in cargs if not a.startswith("--ff=")] + extra, "entry": entry, "base_args": cargs, "detail": detail})
+
+
+def audit_history(ctx, structs):
+    """(1): option set A, then B, then A again in ONE process gives A's bytes again; B in this
+    process equals B in a fresh process (nothing a formatting option does - in-place renaming by
+    --ffout included - survives on shared definition / force-field objects)."""
+    rng = ctx.rng
+    for st in structs:
+        ff = rng.choice(FFS if st["kind"] != "dna" else NA_FFS)
+        A = [f"--ff={ff}"]
+        schemes = [s for s in FFS if s != ff]
+        Bopts = ["ffout", "keep_chain"] + [o for o in ("whitespace", "include_header") if rng.random() < 0.5]
+        Bargs = [f"--ff={ff}"] + option_args(ctx, Bopts, rng.choice(schemes))
+        seq = [("A", A), ("B", Bargs), ("A", A), ("B", Bargs)]
+        outs = []
+        for tag, args in seq:
+            r = run_entry(ctx, st["pdb"], args, st.get("input_name", "input.pdb"), rng.choice(("driver", "run_pdb2pqr")))
+            outs.append(r["pqr_text"])
+        fresh = run_entry(ctx, st["pdb"], Bargs, st.get("input_name", "input.pdb"), "cli")
+        ctx.evaluated(("history", st["id"], ff, tuple(Bargs[1:])), outs[0] is not None and len(atom_lines(outs[0] or "")) > 0)
+        ctx.count(f"audit:history:{st['kind']}")
+        bad = None
+        if outs[0] != outs[2]:
+            bad = ("A-B-A", "the plain run after a run with formatting options differs from the plain run before it")
+        elif outs[1] != outs[3]:
+            bad = ("B-A-B", "the second run with the formatting options differs from the first")
+        elif outs[1] != fresh["pqr_text"]:
+            bad = ("in-process-vs-fresh-process", f"the formatted run in this process differs from the same run in a fresh process ({fresh['exc']})")
+        if bad:
+            first = ""
+            x, y = (outs[0], outs[2]) if bad[0] == "A-B-A" else ((outs[1], outs[3]) if bad[0] == "B-A-B" else (outs[1], fresh["pqr_text"]))
+            for l1, l2 in zip((x or "").splitlines(), (y or "").splitlines()):
+                if l1 != l2:
+                    first = f": first differing line {l1!r} vs {l2!r}"
+                    break
+            ctx.fail({"site": "process-history", "field": bad[0], "option": classify_subset(Bopts)}, f"{st['id']} ff {ff}: {bad[1]}{first}",
+                     {"kind": "history", "structure": st["id"], "pdb": st["pdb"], "input_name": st.get("input_name", "input.pdb"), "A": A, "B": Bargs})
+
+
+def audit_history_one(ctx, case):
+    outs = [run_entry(ctx, case["pdb"], a, case.get("input_name", "input.pdb"), "driver")["pqr_text"] for a in (case["A"], case["B"], case["A"], case["B"])]
+    fresh = run_entry(ctx, case["pdb"], case["B"], case.get("input_name", "input.pdb"), "cli")["pqr_text"]
+    for fld, x, y in (("A-B-A", outs[0], outs[2]), ("B-A-B", outs[1], outs[3]), ("in-process-vs-fresh-process", outs[1], fresh)):
+        if x != y:
+            ctx.fail({"site": "process-history", "field": fld}, f"replay: {fld} differs", case)
+            return
+
+
+def search_audit(ctx, structs, high):
+    S0, Srand, Sdna = structs
+    layouts = layout_structures(ctx)
+    lig = ligand_structure(ctx)
+    pool = layouts + ([lig] if lig else []) + [Srand, Sdna]
+    audit_product(ctx, pool, (5 * len(pool)) if (high or ctx.thorough) else 2 * len(pool))
+    audit_history(ctx, [S0, layouts[0]] + ([Sdna, layouts[2], Srand] if (high or ctx.thorough) else []))
 
 
 # ---------------------------------------------------------------------------
@@ -1144,15 +1407,21 @@ def replay_case(ctx, case):
     if kind == "lattice":
         st = {"id": case["structure"], "pdb": case["pdb"], "chains": set(case["chains"]), "input_name": case.get("input_name", "input.pdb")}
         extra = case.get("extra_args", [])
-        base = run_real(ctx, st["pdb"], [f"--ff={case['ff']}"] + extra, st["input_name"])
+        bargs = case.get("base_args") or ([f"--ff={case['ff']}"] + extra)
+        oargs = (case["base_args"] + [a for a in extra if a.startswith("--log-level")]) if case.get("base_args") else bargs
+        base = run_entry(ctx, st["pdb"], bargs, st["input_name"], "driver")
         if base["pqr_text"] is None:
-            return [({"site": "base-run", "field": "no-output"}, f"base run failed: {exc_text(base)}")]
+            return [({"site": "base-run", "field": "no-output"}, f"base run failed: {base['exc']}")]
         ba = parse_pqr(base["pqr_text"], False)
-        res = run_real(ctx, st["pdb"], [f"--ff={case['ff']}"] + extra + option_args(ctx, case["opts"], case.get("scheme")), st["input_name"])
-        d = lattice_compare(st, ba, res, case["opts"])
+        res = run_entry(ctx, st["pdb"], oargs + option_args(ctx, case["opts"], case.get("scheme")), st["input_name"], case.get("entry", "driver"))
+        d = ("no-output", f"no PQR written ({res['exc']})") if res["pqr_text"] is None else lattice_compare(st, ba, {"pqr_text": res["pqr_text"], "exc": None}, case["opts"])
         if d:
             return [(lattice_sig(case["opts"], extra, d[0]), d[1])]
         return []
+    if kind == "history":
+        before = len(ctx.failures)
+        audit_history_one(ctx, case)
+        return [(f["signature"], f["what"]) for f in ctx.failures[before:]]
     if kind == "dropwater":
         before = len(ctx.failures) + sum(ctx.known_hits.values())
         dropwater_case(ctx, {"id": case["structure"], "pdb": case["pdb"], "het": case.get("het", ""), "waters": case.get("waters", [])}, case["ff"])
@@ -1230,7 +1499,11 @@ def run(ctx):
         "all-on for the other pairs; --drop-water vs text-level deletion of HOH/WAT records x 6 force fields; --neutraln/"
         "--neutralc/both on [X,GLY,X]+[ALA,X,SER] and on chains of length 1 and 2 ([X], [X,Y]; lone OXT-bearing residue "
         "ahead of a peptide under one chain ID; waters trailing a one-residue chain) for all 20 residue types X (PARSE), each "
-        "change attributed to the flag allowed to cause it. A case is non-trivial when the base "
+        "change attributed to the flag allowed to cause it, plus blank-chain-ID and cyclic layouts. Class audit: random compute "
+        "settings (ff, userff/usernames, neutral flags, noopt, nodebump, drop-water, PROPKA at several pH, ligand) x random "
+        "formatting subsets (+ --log-level) through main_driver(Namespace) / run_pdb2pqr / console main() in a fresh process on "
+        "layout structures (short chains, hidden chain end, blank chain IDs, same-chain waters, unknown residue, cyclic, "
+        "ligand); A-B-A-B option histories in one process vs a fresh process. A case is non-trivial when the base "
         "output has >= 1 atom (lattice), when dropping waters changes the output (drop-water), when >= 1 terminus was actually "
         "neutralised (neutral); distinct by (structure, force field, option subset, scheme)."
     )
@@ -1256,6 +1529,7 @@ def run(ctx):
         for ff in FFS if (i == 0 or high or dw_broke or ctx.thorough) else ["PARSE", FFS[(ctx.seed + i) % 6]]:
             dropwater_case(ctx, st, ff)
     search_neutral(ctx, high)
+    search_audit(ctx, (S0, Srand, Sdna), high)
     ctx.sample({"structure": S0["id"], "pdb_head": S0["pdb"].splitlines()[:3], "lattice": "63 option subsets vs base, numeric columns compared as bytes (tokens under --whitespace)"})
     ctx.sample({"structure": Srand["id"]})
     ctx.sample({"structure": Sdna["id"]})
